@@ -270,7 +270,16 @@ def conservation(ctx):
         zb = None
         if item0 is not None and item0[0] == 'gamma' and item0[1] == mk('gt', req.t, ZERO) and item0[3][0] == 'gamma' and item0[3][1] == mk('lt', req.t, ZERO):
             zb = item0[3][3]
-        okz = zb is not None and zb[0] == 'elem' and zb[1] == ('uf', 'vec::from_elem', ZERO, ('len', ('pre', (('obj', 1), ('f', 'loco_vec')))))
+        LV = (('obj', 1), ('f', 'loco_vec'))
+        gt0, lt0 = mk('gt', req.t, ZERO), mk('lt', req.t, ZERO)
+        zcalls = [c for c in an.calls if any(cnd == gt0 and o == '0' for cnd, o in c.pc) and any(cnd == lt0 and o == '0' for cnd, o in c.pc) and c.result is not None
+                  and ('from_elem' in c.callee or '::collect' in c.callee)]
+        def one_zero_per_unit(v):
+            return v == ('uf', 'vec::from_elem', ZERO, ('len', ('pre', LV))) or \
+                (v[0] == 'uf' and v[1] == 'iter.collect' and v[2][0] == 'seq' and tuple(v[2][1]) == (('slice', LV),) and v[2][2] == ZERO)
+        okz = zb is not None and len(zcalls) == 1 and one_zero_per_unit(zcalls[0].result)
+        if zb is not None:
+            zb = ('elem', zcalls[0].result) if zcalls else ('elem', ('sym', 'no vector of zeros is built in the zero branch'))
         ctx.check(okz, 'C10-1.conservation', b.fid + '|zero request', 'for a request of exactly 0 the share vector is one 0 per locomotive',
                   'share vector of the zero branch: %s' % (show(zb[1] if zb is not None and zb[0] == 'elem' else zb, an.names)[:160] if zb is not None else
                                                            'request is not split three ways on its sign: %s' % (show(item0, an.names)[:160] if item0 is not None else None)), ctx.where(b))
